@@ -269,6 +269,10 @@ func (p *Prog) panicSitesIn(inScope map[string]bool, anyClass bool) []PanicSite 
 		}
 		for _, b := range fn.Blocks {
 			for _, in := range b.Instrs {
+				// D9: the zero value of a comma-ok form whose ok nobody tested, written to (nil map) or dereferenced (nil pointer)
+				if s := p.failedCommaOkUse(fn, in); s != nil {
+					out = append(out, *s)
+				}
 				switch x := in.(type) {
 				case *ssa.TypeAssert:
 					// D1
@@ -323,6 +327,12 @@ func (p *Prog) panicSitesIn(inScope map[string]bool, anyClass bool) []PanicSite 
 				// D8: slice converted to an array (pointer) without a dominating test that it is long enough
 				if s := p.sliceToArray(fn, in); s != nil {
 					out = append(out, *s)
+				}
+				// D10: result of a standard-library function that reports failure by a nil result (no error), dereferenced untested
+				if call, ok := in.(*ssa.Call); ok {
+					if s := p.nilOnFailureDeref(fn, call); s != nil {
+						out = append(out, *s)
+					}
 				}
 			}
 		}
@@ -1047,4 +1057,170 @@ func (p *Prog) sliceToArray(fn *ssa.Function, in ssa.Instruction) *PanicSite {
 	}
 	return &PanicSite{Detector: "D8.slice-to-array", Fn: fn, Pos: pos, Expr: AccessPath(x.X, 0),
 		Detail: fmt.Sprintf("conversion of the slice %s to an array of %d elements panics when the slice is shorter; no dominating test of its length", AccessPath(x.X, 0), n)}
+}
+
+// failedCommaOkUse (D9): m, ok := x.(map[K]V) / p, ok := x.(*T) / v, ok := mm[k] yields the zero value (nil map, nil pointer)
+// when ok is false. A write into that map or a dereference of that pointer panics unless a dominating branch established
+// ok == true or value != nil. `in` is the comma-ok instruction.
+func (p *Prog) failedCommaOkUse(fn *ssa.Function, in ssa.Instruction) *PanicSite {
+	var tuple ssa.Value
+	what := ""
+	switch x := in.(type) {
+	case *ssa.TypeAssert:
+		if !x.CommaOk {
+			return nil
+		}
+		tuple, what = x, "type assertion"
+	case *ssa.Lookup:
+		if !x.CommaOk {
+			return nil
+		}
+		tuple, what = x, "map lookup"
+	default:
+		return nil
+	}
+	var val, okv ssa.Value
+	for _, ref := range *tuple.Referrers() {
+		if ex, isEx := ref.(*ssa.Extract); isEx {
+			if ex.Index == 0 {
+				val = ex
+			} else {
+				okv = ex
+			}
+		}
+	}
+	if val == nil {
+		return nil
+	}
+	_, isMap := val.Type().Underlying().(*types.Map)
+	_, isPtr := val.Type().Underlying().(*types.Pointer)
+	if !isMap && !isPtr {
+		return nil
+	}
+	// the value, and loads of a local variable it is the only thing ever stored in
+	vals := []ssa.Value{val}
+	for _, ref := range *val.Referrers() {
+		if st, isSt := ref.(*ssa.Store); isSt && st.Val == val {
+			if a, isA := st.Addr.(*ssa.Alloc); isA && len(storesTo(a)) == 1 {
+				for _, r2 := range *a.Referrers() {
+					if u, isU := r2.(*ssa.UnOp); isU && u.Op == token.MUL {
+						vals = append(vals, u)
+					}
+				}
+			}
+		}
+	}
+	guarded := func(b *ssa.BasicBlock) bool {
+		if okv != nil && FactHoldsValue(b, func(v ssa.Value) bool { return v == okv }, true) {
+			return true
+		}
+		for _, v := range vals {
+			if nonNilAt(v, b) {
+				return true
+			}
+		}
+		return false
+	}
+	for _, v := range vals {
+		if isMap {
+			for _, ref := range *v.Referrers() {
+				if mu, isMU := ref.(*ssa.MapUpdate); isMU && mu.Map == v && !guarded(mu.Block()) {
+					return &PanicSite{Detector: "D9.zero-value-of-failed-comma-ok", Fn: fn, Pos: mu.Pos(), Expr: AccessPath(tuple, 0), Detail: "the map comes from a comma-ok " + what + " whose ok is not established here: when it failed the map is nil and the assignment panics"}
+				}
+			}
+			continue
+		}
+		for _, d := range derefUses(v) {
+			if !guarded(d.Block()) {
+				return &PanicSite{Detector: "D9.zero-value-of-failed-comma-ok", Fn: fn, Pos: d.Pos(), Expr: AccessPath(tuple, 0), Detail: "the pointer comes from a comma-ok " + what + " whose ok is not established here: when it failed the pointer is nil"}
+			}
+		}
+	}
+	return nil
+}
+
+// nilOnFailure: standard-library functions that report failure by returning nil (no error value); value = indexes of the
+// results that are nil then.
+var nilOnFailure = map[string][]int{
+	"crypto/elliptic.Unmarshal":           {0, 1},
+	"crypto/elliptic.UnmarshalCompressed": {0, 1},
+	"encoding/pem.Decode":                 {0},
+	"(*math/big.Int).SetString":           {0},
+	"(*math/big.Int).ModInverse":          {0},
+	"(*math/big.Int).ModSqrt":             {0},
+	"(*math/big.Rat).SetString":           {0},
+	"(*math/big.Float).SetString":         {0},
+}
+
+// nilOnFailureDeref (D10): such a result is dereferenced (field, method that dereferences its receiver) with no dominating
+// nil test of it (or, for the SetString family, of the ok result).
+func (p *Prog) nilOnFailureDeref(fn *ssa.Function, call *ssa.Call) *PanicSite {
+	f := call.Common().StaticCallee()
+	if f == nil {
+		return nil
+	}
+	idxs, ok := nilOnFailure[f.String()]
+	if !ok {
+		return nil
+	}
+	var okv ssa.Value
+	res := map[int]ssa.Value{}
+	if call.Common().Signature().Results().Len() == 1 {
+		res[0] = call
+	} else {
+		for _, ref := range *call.Referrers() {
+			if ex, isEx := ref.(*ssa.Extract); isEx {
+				res[ex.Index] = ex
+				if b, isB := ex.Type().Underlying().(*types.Basic); isB && b.Kind() == types.Bool {
+					okv = ex
+				}
+			}
+		}
+	}
+	for _, i := range idxs {
+		first := res[i]
+		if first == nil {
+			continue
+		}
+		vals := map[ssa.Value]bool{first: true}
+		work := []ssa.Value{first}
+		for len(work) > 0 && len(vals) < 12 {
+			v := work[0]
+			work = work[1:]
+			if refs := v.Referrers(); refs != nil {
+				for _, ref := range *refs {
+					switch x := ref.(type) {
+					case *ssa.Phi:
+						if !vals[x] {
+							vals[x] = true
+							work = append(work, x)
+						}
+					case *ssa.Store:
+						if x.Val == v {
+							if a, isA := x.Addr.(*ssa.Alloc); isA {
+								for _, r2 := range *a.Referrers() {
+									if u, isU := r2.(*ssa.UnOp); isU && u.Op == token.MUL && !vals[u] {
+										vals[u] = true
+										work = append(work, u)
+									}
+								}
+							}
+						}
+					}
+				}
+			}
+		}
+		for v := range vals {
+			for _, d := range derefUses(v) {
+				if nonNilAt(v, d.Block()) || nonNilAt(first, d.Block()) {
+					continue
+				}
+				if okv != nil && FactHoldsValue(d.Block(), func(x ssa.Value) bool { return x == okv }, true) {
+					continue
+				}
+				return &PanicSite{Detector: "D10.nil-on-failure-result-deref", Fn: fn, Pos: d.Pos(), Expr: AccessPath(call, 0), Detail: f.String() + " returns nil when its input is malformed (it has no error result) and the result is dereferenced without a nil test"}
+			}
+		}
+	}
+	return nil
 }
